@@ -102,6 +102,7 @@ class Ctx:
         self.stores = stores
         self._hyp = {}
         self._reach = {}
+        self._pf_done = False
 
     # ---- types ---------------------------------------------------------------------------
     def ty_of(self, e):
@@ -290,6 +291,7 @@ class Ctx:
             hi = iv[1] if hi is None else min(hi, iv[1])
         rp = self.ret_path(e)
         key = ("x", ("retcomp", L_freeze(rp[0]), rp[1])) if rp is not None else ("x", L_freeze(e))
+        self.__dict__.setdefault("_oexpr", {})[key] = e
         cur = self.atoms.get(key)
         if cur is None or cur == (None, None):
             self.atoms[key] = (lo, hi)
@@ -432,6 +434,14 @@ class Ctx:
             ri = ret_interval(self.u, e[3])
             if ri is not None:
                 return ri
+        if h == "proj" or h == "call":
+            rp = self.ret_path(e)
+            if rp is not None and rp[1] == ():
+                k = bitacc_summary(self.u, rp[0][3])
+                if k is not None and k < len(rp[0][2]):
+                    n = self.interval(rp[0][2][k])
+                    if n is not None and 0 <= n[1] <= 64:
+                        return (0, 2 ** n[1] - 1)
         if h == "call":
             n = e[1]
             if n.split("::")[-1] in ("len", "count"):
@@ -492,7 +502,93 @@ class Ctx:
             return r
         out = (r[0] if dec else max(lo, r[0]), r[1] if inc else min(hi, r[1]))
         cache[l] = out
+        if inc and not dec and LEN_MAX < out[1]:
+            # candidate inductive bound v <= LEN_MAX: every definition keeps it, assuming it for the previous value
+            K = LEN_MAX
+            key = ("v", l)
+            saved = self.atoms.get(key)
+            cache[l] = (out[0], K)
+            self.atoms[key] = (out[0], K)
+            good = True
+            for d in ds:
+                e = sym.expr_def(self.b, d, stop=(l,))
+                okk, _h = self.prove_le0(self.lin(e) - Lin(K), d[1], 2, entry=(d[0] == "stmt"))
+                if not okk:
+                    good = False
+                    break
+            if good:
+                out = (out[0], K)
+                self.__dict__.setdefault("_ind", {})[l] = K
+            else:
+                if saved is None:
+                    self.atoms.pop(key, None)
+                else:
+                    self.atoms[key] = saved
+            cache[l] = out
+        if inc and not dec and out[1] >= r[1]:
+            tb = self.trip_bounded(l, ds, lo, hi)
+            if tb is not None:
+                out = (out[0], min(out[1], tb))
+                cache[l] = out
         return out
+
+    def trip_count(self, blocks):
+        """upper bound on the number of iterations of the loop with these blocks when it is driven by a std iterator chain
+        containing `.take(N)` with constant N, or by a range with constant ends"""
+        for bb in sorted(blocks):
+            t = self.b["blocks"][bb]["term"]
+            if t["k"] != "call":
+                continue
+            name, info = mir.callee(t)
+            if not (name or "").endswith("::next") or not t["args"]:
+                continue
+            if any(bb in bl and len(bl) < len(blocks) for (_h, _l, bl) in self.natural_loops()):
+                continue          # belongs to a nested loop
+            # the None arm must leave the loop: approximated by the iterator being a std adaptor chain (checked by the loop rule)
+            cur = sym.expr(self.b, t["args"][0])
+            seen = 0
+            while cur is not None and seen < 12:
+                seen += 1
+                if cur[0] == "ref":
+                    cur = cur[1]
+                    continue
+                if cur[0] == "call":
+                    last = cur[1].split("::")[-1]
+                    if last == "take" and len(cur[2]) == 2 and cur[2][1][0] == "const" and isinstance(cur[2][1][1], int):
+                        return cur[2][1][1]
+                    if last in ("into_iter", "enumerate", "iter", "by_ref", "copied", "cloned", "iter_mut", "rev") and cur[2]:
+                        cur = cur[2][0]
+                        continue
+                if cur[0] == "agg" and str(cur[1]).endswith("ops::Range::Range") and len(cur[3]) == 2:
+                    a, b_ = self.interval(cur[3][0]), self.interval(cur[3][1])
+                    if a and b_ and b_[1] - a[0] < 2 ** 32:
+                        return max(0, b_[1] - a[0])
+                break
+        return None
+
+    def trip_bounded(self, l, ds, init_lo, init_hi):
+        steps = []
+        for d in ds:
+            if d[0] != "stmt":
+                continue
+            e = sym.expr_rv(self.b, d[3]["rv"], stop=(l,))
+            if e[0] == "proj" and e[2] == "0" and e[1][0] == "bin" and e[1][1] == "AddWithOverflow" and e[1][2][0] == "var" and e[1][2][1] == l:
+                steps.append((d[1], self.interval(e[1][3])))
+        if not steps or init_hi is None:
+            return None
+        total = init_hi
+        for (sbb, iv) in steps:
+            inner = None
+            for (h, latches, blocks) in self.natural_loops():
+                if sbb in blocks and (inner is None or len(blocks) < len(inner)):
+                    inner = blocks
+            if inner is None or iv is None:
+                return None
+            n = self.trip_count(inner)
+            if n is None:
+                return None
+            total += n * iv[1]
+        return total
 
     def counter_facts(self, l):
         """v >= init (resp. <=) for a local whose only non-initial definitions are self-increments (decrements)"""
@@ -670,7 +766,7 @@ class Ctx:
             self._reach[key] = mir.reachable(self.b, [frm], avoid=(avoid,) if avoid is not None else ())
         return self._reach[key]
 
-    def killed(self, cons, tgt, use_bb):
+    def killed(self, cons, tgt, use_bb, entry=False):
         """is a fact established on the edge into `tgt` possibly stale at `use_bb` (an atom was redefined in between)?"""
         atoms = set()
         for c in cons:
@@ -688,7 +784,7 @@ class Ctx:
             for d in def_blocks:
                 if d not in from_tgt:
                     continue
-                if d == use_bb:
+                if d == use_bb and not entry:
                     return True
                 # from the (end of) the defining block to the use without re-entering tgt (i.e. without re-taking the guard)
                 for s in mir.succs(self.b, d):
@@ -745,9 +841,12 @@ class Ctx:
                 out.add(bb)
         return out
 
-    def hyps(self, bb):
-        """hypotheses valid at the end of block bb: list of Lin <= 0"""
-        if bb in self._hyp:
+    def hyps(self, bb, entry=False):
+        """hypotheses valid at the end (entry=True: at the start) of block bb: list of Lin <= 0"""
+        if entry:
+            if ("entry", bb) in self._hyp:
+                return self._hyp[("entry", bb)]
+        elif bb in self._hyp:
             return self._hyp[bb]
         out = []
         for s in sorted(self.dom.get(bb, ())):
@@ -774,25 +873,130 @@ class Ctx:
                             if r[0] < 0 and v > r[1]:
                                 v -= (r[1] - r[0] + 1)
                             cons = [li - Lin(v), Lin(v) - li]
-                    if cons and not self.killed(cons, tgt, bb):
+                    if cons and not self.killed(cons, tgt, bb, entry):
                         out += cons
             elif t["k"] == "assert" and s != bb:
                 tgt = t["target"]
                 if (tgt in self.dom[bb] or tgt == bb) and set(self.preds[tgt]) == {s}:
                     c = sym.expr(self.b, t["cond"])
                     cons = self.cond_constraints(c, bool(t["expected"]))
-                    if cons and not self.killed(cons, tgt, bb):
+                    if cons and not self.killed(cons, tgt, bb, entry):
                         out += cons
-        self._hyp[bb] = out
+        self._hyp[("entry", bb) if entry else bb] = out
+        return out
+
+    # ---- caller-established parameter facts ---------------------------------------------------------
+    def apply_param_facts(self):
+        if self._pf_done or self.u is None:
+            return
+        self._pf_done = True
+        fn = self.b.get("path")
+        if fn is None:
+            return
+        for (kind, k, val) in param_facts(self.u, fn):
+            if self.defs.get(k) or self.pdefs.get(k):
+                continue                  # the parameter is reassigned in the body
+            if kind == "hi":
+                r = self.rng(self.b["locals"][k]["ty"])
+                if r:
+                    self.atom(("v", k), r[0], val)
+            elif kind == "lo":
+                r = self.rng(self.b["locals"][k]["ty"])
+                if r:
+                    self.atom(("v", k), val, r[1])
+            elif kind == "len_ge1":
+                self.extra.append(Lin(1) - self.atom(("len", val), 0, LEN_MAX))
+            elif kind == "le_len":
+                self.extra.append(self.atom(("v", k), 0, None) - self.atom(("len", val), 0, LEN_MAX))
+
+    # ---- loop-header invariants -------------------------------------------------------------------
+    def natural_loops(self):
+        if "_loops" in self.__dict__:
+            return self._loops
+        by_h = {}
+        for blk in self.b["blocks"]:
+            i = blk["i"]
+            if blk["cleanup"] or i not in self.dom:
+                continue
+            for s_ in mir.succs(self.b, i):
+                if s_ in self.dom[i]:
+                    by_h.setdefault(s_, []).append(i)
+        out = []
+        for h, latches in by_h.items():
+            blocks = {h}
+            work = list(latches)
+            while work:
+                x = work.pop()
+                if x in blocks:
+                    continue
+                blocks.add(x)
+                work.extend(self.preds[x])
+            out.append((h, latches, blocks))
+        self._loops = out
+        return out
+
+    def header_facts(self, bb):
+        """single-variable bounds that hold at the header of a loop containing bb: provable at the end of every latch from
+        the guards dominating the latch, and satisfied by every definition of the variable outside the loop; returned only
+        if the variable is not redefined between the header and bb"""
+        out = []
+        cache = self.__dict__.setdefault("_hf", {})
+        for (h, latches, blocks) in self.natural_loops():
+            if bb not in blocks:
+                continue
+            if h not in cache:
+                cache[h] = None
+                facts = []
+                cands = {}
+                for la in latches:
+                    for c in self.hyps(la):
+                        if len(c.t) == 1:
+                            (a, coef), = c.t.items()
+                            if a[0] == "v" and any(d[1] in blocks for d in self.defs.get(a[1], [])):
+                                cands.setdefault((a, coef > 0), []).append(c)
+                for (a, upper), cs in cands.items():
+                    # weakest bound over the latches; every latch must give one
+                    per_latch = []
+                    for la in latches:
+                        bs = [c for c in self.hyps(la) if set(c.t) == {a} and (c.t[a] > 0) == upper]
+                        if not bs:
+                            per_latch = None
+                            break
+                        # bound value: coef*v + const <= 0  =>  v <= -const/coef (upper) or v >= -const/coef (lower)
+                        per_latch.append(min(bs, key=lambda c: Fraction(-c.c, c.t[a]) if upper else -Fraction(-c.c, c.t[a])))
+                    if not per_latch:
+                        continue
+                    weakest = max(per_latch, key=lambda c: Fraction(-c.c, c.t[a]) if upper else -Fraction(-c.c, c.t[a]))
+                    fact = Lin(weakest.c, {a: weakest.t[a]})
+                    l = a[1]
+                    ok = True
+                    for d in self.defs.get(l, []):
+                        if d[1] in blocks:
+                            continue
+                        e = sym.expr_def(self.b, d, stop=(l,))
+                        g = self.lin(e).scale(weakest.t[a]) + Lin(weakest.c)
+                        okk, _h = self.prove_le0(g, d[1], 2, entry=(d[0] == "stmt"))
+                        if not okk:
+                            ok = False
+                            break
+                    if ok and not self.pdefs.get(l) and not (1 <= l <= self.b["argc"]):
+                        facts.append(fact)
+                cache[h] = facts
+            for f in (cache[h] or []):
+                if not self.killed([f], h, bb, entry=True):
+                    out.append(f)
         return out
 
     # ---- proving -------------------------------------------------------------------------------
-    def prove_le0(self, goal, bb, _depth=0):
-        """goal: Lin; prove goal <= 0 at the end of block bb"""
+    def prove_le0(self, goal, bb, _depth=0, entry=False):
+        """goal: Lin; prove goal <= 0 at the end (entry=True: start) of block bb"""
         lo, hi = self.bounds(goal)
         if hi is not None and hi <= 0:
             return True, "interval"
-        cons = list(self.hyps(bb)) + list(self.extra)
+        self.apply_param_facts()
+        cons = list(self.hyps(bb, entry)) + list(self.extra)
+        if _depth < 2:
+            cons += self.header_facts(bb)
         for (ibb, fact) in self.__dict__.get("_cfacts", []):
             if ibb in self.dom.get(bb, ()) :
                 cons.append(fact)
@@ -830,15 +1034,39 @@ class Ctx:
         """a multi-definition local (a `phi`): prove the goal for each of its definitions separately, using the facts that
         hold where that definition is made (restricted to atoms that never change) in addition to the facts at bb"""
         for a in list(goal.t):
+            if a[0] == "x" and a in self.__dict__.get("_oexpr", {}):
+                e = self._oexpr[a]
+                if e[0] == "call" and len(e[2]) == 2 and e[1].split("::")[-1] in ("min", "max") and ("Ord" in e[1] or "core::cmp" in e[1] or "std::cmp" in e[1]):
+                    allok = True
+                    for alt in e[2]:
+                        li = self.lin(alt)
+                        if a in li.t:
+                            allok = False
+                            break
+                        g2 = Lin(goal.c, {k: v for k, v in goal.t.items() if k != a}) + li.scale(goal.t[a])
+                        # in this case the other operand is on the far side of the chosen one
+                        oth = self.lin(e[2][1] if alt is e[2][0] else e[2][0])
+                        fact = (li - oth) if e[1].split("::")[-1] == "min" else (oth - li)
+                        self.extra.append(fact)
+                        try:
+                            ok, _h = self.prove_le0(g2, bb, _depth + 1)
+                        finally:
+                            self.extra.pop()
+                        if not ok:
+                            allok = False
+                            break
+                    if allok:
+                        return True
+                continue
             if a[0] != "v":
                 continue
             l = a[1]
             ds = self.defs.get(l, [])
             if not (2 <= len(ds) <= 5) or self.pdefs.get(l) or 1 <= l <= self.b["argc"]:
                 continue
-            if any(d[0] != "stmt" for d in ds):
+            if any(d[0] not in ("stmt", "call") for d in ds):
                 continue
-            exprs = [(d, sym.expr_rv(self.b, d[3]["rv"], stop=(l,))) for d in ds]
+            exprs = [(d, sym.expr_def(self.b, d, stop=(l,))) for d in ds]
             if any(any(isinstance(t, tuple) and t[:2] == ("var", l) for t in sym.walk(e)) for _, e in exprs):
                 continue       # self-referential (a counter): handled by counter facts
             if not all(d[1] in self.dom.get(bb, ()) or True for d, _ in exprs):
@@ -961,6 +1189,170 @@ def postconditions(u, fn):
     return out
 
 
+_PF = {}
+
+
+def _call_sites(u, fn):
+    """direct calls of local function/closure fn: [(caller key, caller body, bb, [arg exprs by callee local index - 1])], or
+    None if fn escapes as a value somewhere other than a call's callee or (for closures) its construction"""
+    sites = []
+    isclo = u.bodies[fn].get("kind") == "Closure"
+    for p, b in u.bodies.items():
+        if b["in_test_cfg"]:
+            continue
+        for bb, t, name, info in mir.calls(b):
+            if name != fn:
+                # fn used as a value argument (fn item passed to map etc.) / closure handed to someone else
+                for a in t["args"]:
+                    if a.get("k") == "const" and (a.get("callee") or {}).get("resolved") == fn:
+                        return None
+                    if isclo and b["path"] == u.bodies[fn].get("parent"):
+                        for x in sym.walk(sym.expr(b, a)):
+                            if isinstance(x, tuple) and x and x[0] == "agg" and str(x[1]) == "closure " + mir.norm(fn):
+                                return None
+                continue
+            args = [sym.expr(b, a) for a in t["args"]]
+            if isclo:
+                if len(args) != 2 or not (args[1][0] == "agg" and args[1][1] == "tuple"):
+                    return None
+                args = [args[0]] + list(args[1][3])
+            sites.append((p, b, bb, args))
+    return sites
+
+
+def param_facts(u, fn):
+    """facts about the parameters of a non-public function or closure that hold at every direct call site (L-PRE): list of
+    ('hi'|'lo', local, bound) | ('len_ge1', local, callee-side length key) | ('le_len', local, callee-side length key)"""
+    if fn in _PF:
+        return _PF[fn]
+    _PF[fn] = []
+    b = u.bodies[fn]
+    if b.get("reachable_pub") or b.get("vis") == "Public":
+        return []
+    isclo = b.get("kind") == "Closure"
+    sites = _call_sites(u, fn)
+    if not sites:
+        return []
+    out = []
+    cxs = {}
+    for k in range(1, b["argc"] + 1):
+        ty = b["locals"][k]["ty"]
+        if ty in INT_RANGE:
+            lo = hi = None
+            for (p, cb, bb, args) in sites:
+                if k - 1 >= len(args):
+                    lo = hi = None
+                    break
+                cx = cxs.setdefault(p, Ctx(cb, u))
+                li = cx.lin(args[k - 1])
+                l_, h_ = cx.bounds(li)
+                iv = cx.interval(args[k - 1])
+                if iv:
+                    l_ = iv[0] if l_ is None else max(l_, iv[0])
+                    h_ = iv[1] if h_ is None else min(h_, iv[1])
+                if l_ is None or h_ is None:
+                    lo = hi = None
+                    break
+                lo = l_ if lo is None else min(lo, l_)
+                hi = h_ if hi is None else max(hi, h_)
+            if hi is not None:
+                out.append(("hi", k, hi))
+                out.append(("lo", k, lo))
+        elif ty.replace("'_ ", "").lstrip("&") in ("[u8]", "str", "std::vec::Vec<u8>") and ty.startswith("&") and not ty.startswith("&mut"):
+            ok = True
+            for (p, cb, bb, args) in sites:
+                cx = cxs.setdefault(p, Ctx(cb, u))
+                key = cx.len_key(args[k - 1])
+                cx.len_facts(args[k - 1], key)
+                good, _h = cx.prove_le0(Lin(1) - cx.atom(key, 0, LEN_MAX), bb)
+                if not good:
+                    ok = False
+                    break
+            if ok:
+                out.append(("len_ge1", k, "arg%d" % k))
+            # integer parameters bounded by this slice's length
+            for j in range(1, b["argc"] + 1):
+                if b["locals"][j]["ty"] != "usize":
+                    continue
+                ok = True
+                for (p, cb, bb, args) in sites:
+                    cx = cxs.setdefault(p, Ctx(cb, u))
+                    key = cx.len_key(args[k - 1])
+                    cx.len_facts(args[k - 1], key)
+                    good, _h = cx.prove_le0(cx.lin(args[j - 1]) - cx.atom(key, 0, LEN_MAX), bb)
+                    if not good:
+                        ok = False
+                        break
+                if ok:
+                    out.append(("le_len", j, "arg%d" % k))
+    _PF[fn] = out
+    return out
+
+
+_BITACC = {}
+
+
+def bitacc_summary(u, fn):
+    """L-READBITS: if fn returns Some(v)/Ok(v)/v where v starts at 0 and is only ever updated by `v = (v << 1) | bit` (bit in
+    {0,1}) once per iteration of a `for _ in 0..<param k>` loop, the result is < 2^(param k): returns k (0-based), else None"""
+    if fn in _BITACC:
+        return _BITACC[fn]
+    _BITACC[fn] = None
+    from . import flow
+    b = u.bodies[fn]
+    cx = Ctx(b, u)
+    exits = [e for e in flow.exits(b) if e["kind"] == "ok"]
+    vals = set()
+    for ex in exits:
+        v = sym.expr_rv(b, ex["node"]["rv"])
+        if v[0] != "agg" or len(v[3]) != 1 or v[3][0][0] != "var":
+            return None
+        vals.add(v[3][0][1])
+    if len(vals) != 1:
+        return None
+    l = vals.pop()
+    ds = cx.defs.get(l, [])
+    if cx.pdefs.get(l) or len(ds) != 2:
+        return None
+    step = None
+    for d in ds:
+        if d[0] != "stmt":
+            return None
+        e = sym.expr_rv(b, d[3]["rv"], stop=(l,))
+        if e[0] == "const" and e[1] == 0:
+            continue
+        if e[0] == "bin" and e[1] == "BitOr" and e[2][0] == "bin" and e[2][1] == "Shl" and e[2][2][:2] == ("var", l) and e[2][3][0] == "const" and e[2][3][1] == 1:
+            iv = cx.interval(e[3])
+            if iv is not None and iv[0] >= 0 and iv[1] <= 1:
+                step = d
+                continue
+        return None
+    if step is None:
+        return None
+    inner = None
+    for (h, latches, blocks) in cx.natural_loops():
+        if step[1] in blocks and (inner is None or len(blocks) < len(inner)):
+            inner = blocks
+    if inner is None:
+        return None
+    for bb in sorted(inner):
+        t = b["blocks"][bb]["term"]
+        if t["k"] != "call":
+            continue
+        name, info = mir.callee(t)
+        if not (name or "").endswith("::next") or not t["args"]:
+            continue
+        if any(bb in bl and len(bl) < len(inner) for (_h, _l, bl) in cx.natural_loops()):
+            continue
+        cur = sym.expr(b, t["args"][0])
+        while cur[0] == "ref" or (cur[0] == "call" and cur[1].split("::")[-1] == "into_iter" and cur[2]):
+            cur = cur[1] if cur[0] == "ref" else cur[2][0]
+        if cur[0] == "agg" and str(cur[1]).endswith("ops::Range::Range") and len(cur[3]) == 2 and cur[3][0][0] == "const" and cur[3][0][1] == 0 and cur[3][1][0] == "arg":
+            _BITACC[fn] = cur[3][1][1] - 1
+            return _BITACC[fn]
+    return None
+
+
 def ret_interval(u, fn, depth=0):
     """interval of the integer value returned by local function fn (union over all definitions of _0)"""
     if fn in _RET:
@@ -1012,6 +1404,8 @@ def struct_field_interval(u, field, ty=None):
                     if cx is None:
                         cx = Ctx(b, u)
                     e = sym.expr(b, dict(zip(rv["fields"], rv["ops"]))[field])
+                    if _same_field_copy(e, field):
+                        continue          # copies the same field of another instance (Clone, struct update): inductive
                     iv = cx.interval(e)
                     if iv is None:
                         return None
@@ -1026,6 +1420,168 @@ def struct_field_interval(u, field, ty=None):
         return None
     _FLD[field] = (lo, hi)
     return (lo, hi)
+
+
+def _same_field_copy(e, field):
+    x = e
+    while True:
+        if x[0] == "ref":
+            x = x[1]
+        elif x[0] == "call" and x[1].split("::")[-1] in ("clone", "deref", "borrow", "as_ref") and len(x[2]) == 1:
+            x = x[2][0]
+        else:
+            break
+    if x[0] in ("load", "refplace") and isinstance(x[1], str):
+        return x[1].split(".")[-1] == field
+    if x[0] == "proj":
+        return x[2] == field
+    return False
+
+
+class NoEval(Exception):
+    pass
+
+
+def wrap_int(v, ty):
+    r = INT_RANGE.get((ty or "").lstrip("&"))
+    if r is None:
+        raise NoEval("type " + str(ty))
+    span = r[1] - r[0] + 1
+    return (v - r[0]) % span + r[0]
+
+
+def eval_expr(e, env):
+    """exact integer value of a sym expression; env maps frozen sub-expressions to values"""
+    k = L_freeze(e)
+    if k in env:
+        return env[k]
+    h = e[0]
+    if h == "const" and isinstance(e[1], (int, bool)):
+        return int(e[1])
+    if h == "cast" and e[1] == "IntToInt":
+        return wrap_int(eval_expr(e[4], env), e[3])
+    if h == "proj" and e[2] == "0" and e[1][0] == "bin" and e[1][1].endswith("WithOverflow"):
+        return eval_expr(("bin", e[1][1][:-len("WithOverflow")], e[1][2], e[1][3]), env)
+    if h == "call" and e[1] == "std::convert::num::from" and e[2]:
+        return eval_expr(e[2][0], env)
+    if h == "bin":
+        a, b = eval_expr(e[2], env), eval_expr(e[3], env)
+        op = e[1]
+        if op == "Add":
+            return a + b
+        if op == "Sub":
+            return a - b
+        if op == "Mul":
+            return a * b
+        if op in ("Div", "Rem"):
+            if b == 0:
+                raise NoEval("division by zero")
+            q = abs(a) // abs(b) * (1 if (a >= 0) == (b >= 0) else -1)
+            return q if op == "Div" else a - q * b
+        if op == "BitAnd":
+            return a & b
+        if op == "BitOr":
+            return a | b
+        if op == "BitXor":
+            return a ^ b
+        if op == "Shl":
+            return a << b
+        if op == "Shr":
+            return a >> b
+        if op in ("Eq", "Ne", "Lt", "Le", "Gt", "Ge"):
+            return int({"Eq": a == b, "Ne": a != b, "Lt": a < b, "Le": a <= b, "Gt": a > b, "Ge": a >= b}[op])
+    raise NoEval(str(h))
+
+
+def compile_expr(e, leaves):
+    """python function f(v0, v1, ..) computing the exact integer value of sym expression e; leaves: list of frozen
+    sub-expressions bound to the arguments.  Shared sub-expressions are computed once."""
+    lines = []
+    names = {}
+    idx = {k: i for i, k in enumerate(leaves)}
+
+    def rec(x):
+        k = L_freeze(x)
+        if k in names:
+            return names[k]
+        if k in idx:
+            names[k] = "v%d" % idx[k]
+            return names[k]
+        h = x[0]
+        if h == "const" and isinstance(x[1], (int, bool)):
+            src = repr(int(x[1]))
+        elif h == "cast" and x[1] == "IntToInt":
+            r = INT_RANGE.get((x[3] or "").lstrip("&"))
+            if r is None:
+                raise NoEval("cast to " + str(x[3]))
+            src = "((%s - %d) %% %d + %d)" % (rec(x[4]), r[0], r[1] - r[0] + 1, r[0])
+        elif h == "proj" and x[2] == "0" and x[1][0] == "bin" and x[1][1].endswith("WithOverflow"):
+            return rec(("bin", x[1][1][:-len("WithOverflow")], x[1][2], x[1][3]))
+        elif h == "call" and x[1] == "std::convert::num::from" and x[2]:
+            return rec(x[2][0])
+        elif h == "bin":
+            a, b = rec(x[2]), rec(x[3])
+            op = x[1]
+            py = {"Add": "+", "Sub": "-", "Mul": "*", "BitAnd": "&", "BitOr": "|", "BitXor": "^", "Shl": "<<", "Shr": ">>"}.get(op)
+            if py:
+                src = "(%s %s %s)" % (a, py, b)
+            elif op == "Div":
+                src = "_div(%s, %s)" % (a, b)
+            elif op == "Rem":
+                src = "_rem(%s, %s)" % (a, b)
+            elif op in ("Eq", "Ne", "Lt", "Le", "Gt", "Ge"):
+                src = "int(%s %s %s)" % (a, {"Eq": "==", "Ne": "!=", "Lt": "<", "Le": "<=", "Gt": ">", "Ge": ">="}[op], b)
+            else:
+                raise NoEval(op)
+        else:
+            raise NoEval(str(h))
+        n = "t%d" % len(lines)
+        lines.append("    %s = %s" % (n, src))
+        names[k] = n
+        return n
+    res = rec(e)
+    code = "def f(%s):\n%s\n    return %s\n" % (", ".join("v%d" % i for i in range(len(leaves))), "\n".join(lines) or "    pass", res)
+
+    def _div(a, b):
+        if b == 0:
+            raise NoEval("division by zero")
+        q = abs(a) // abs(b)
+        return q if (a >= 0) == (b >= 0) else -q
+
+    def _rem(a, b):
+        return a - _div(a, b) * b
+    ns = {"_div": _div, "_rem": _rem}
+    exec(code, ns)
+    return ns["f"]
+
+
+def finite_leaves(e, cx, limit=1 << 20):
+    """maximal sub-expressions of e of the form `x % c` (c <= limit, x >= 0): (frozen key -> c), or None if e has any other
+    non-constant leaf"""
+    out = {}
+
+    def rec(x):
+        h = x[0]
+        if h == "const":
+            return isinstance(x[1], (int, bool))
+        if h == "bin" and x[1] == "Rem" and x[3][0] == "const" and isinstance(x[3][1], int) and 0 < x[3][1] <= limit:
+            iv = cx.interval(x[2])
+            if iv is not None and iv[0] >= 0:
+                out[L_freeze(x)] = x[3][1]
+                return True
+            return False
+        if h == "cast" and x[1] == "IntToInt":
+            return rec(x[4])
+        if h == "proj" and x[2] == "0" and x[1][0] == "bin":
+            return rec(x[1][2]) and rec(x[1][3])
+        if h == "bin":
+            return rec(x[2]) and rec(x[3])
+        if h == "call" and x[1] == "std::convert::num::from" and x[2]:
+            return rec(x[2][0])
+        return False
+    if not rec(e):
+        return None
+    return out
 
 
 def L_freeze(x):
